@@ -7,7 +7,7 @@
  *      unbounded length, so one byte before/after the received bytes is a failed
  *      `pointer_dereference` obligation.
  *  C20 (content, route "bounded"): the postconditions that relate results to the BYTES of the
- *      input are the VF_HTTP_POST_* predicates at the end of this file; they are stated
+ *      input are the vf_http_post_*() predicates at the end of this file (-DVF_HTTP_C20); they are stated
  *      with the RFC 7230 delimiting rules of specs/http_spec.h and asserted by the plain
  *      harnesses in harness/C20 over fixed-size symbolic arrays (also natively on replay).
  *
